@@ -1,7 +1,7 @@
 SPECIFICATION Spec
 CONSTANTS
-  GenFiles = {1, 3, 4}
-  OtherFiles = {}
+  GenFiles = {1, 3}
+  OtherFiles = {5}
   Modes = {292, 420, 384}
   Variants = {0, 2}
   ChmodGate = TRUE
